@@ -171,3 +171,249 @@ Definition mp_corr_bad (cs : list (N * pcase)) : list N :=
                                 | _, _, _ => true
                                 end
                             end) cs).
+
+(* ------------------------------------------------------------------------------------------ *)
+(* Records: a map of attributes (name -> value) followed by a body, which is an array of values
+   (RecordBodyKind::ArrayLike), a map of slots (MapLike) or an array in which a slot is the two element
+   array [key, value] (Mixed; an empty body is Mixed).  An item is (None, v) for a value, (Some k, v) for a
+   slot.  Model of Value::write_with over MsgPackInterpreter / MsgPackBodyInterpreter and of
+   read_from_msg_pack::<Value> (read_record, read_record_body, read_array_body, read_map_body) composed with
+   the Value recogniser. *)
+Inductive mval :=
+| VS (s : mscalar)
+| VR (attrs : list (bytes * mval)) (items : list (option mval * mval)).
+
+Inductive bkind := KArray | KMap | KMixed.
+
+Fixpoint kind_from (k : option bkind) (items : list (option mval * mval)) : option bkind :=
+  match items with
+  | [] => k
+  | (None, _) :: t =>
+      match k with
+      | None | Some KArray => kind_from (Some KArray) t
+      | _ => Some KMixed
+      end
+  | (Some _, _) :: t =>
+      match k with
+      | None | Some KMap => kind_from (Some KMap) t
+      | _ => Some KMixed
+      end
+  end.
+Definition body_kind (items : list (option mval * mval)) : bkind :=
+  match kind_from None items with Some k => k | None => KMixed end.
+
+Definition enc_map_len (n : N) : bytes :=
+  if n <? 16 then [128 + n] else if n <? 65536 then 222 :: be 2 n else 223 :: be 4 n.
+Definition enc_array_len (n : N) : bytes :=
+  if n <? 16 then [144 + n] else if n <? 65536 then 220 :: be 2 n else 221 :: be 4 n.
+
+Fixpoint enc (v : mval) : bytes :=
+  match v with
+  | VS s => enc_scalar s
+  | VR attrs items =>
+      enc_map_len (N.of_nat (length attrs))
+      ++ flat_map (fun a : bytes * mval => let (name, x) := a in enc_str_len (len name) ++ name ++ enc x) attrs
+      ++ (match body_kind items with
+          | KMap =>
+              enc_map_len (N.of_nat (length items))
+              ++ flat_map (fun it : option mval * mval => let (k, x) := it in
+                                     match k with Some k => enc k ++ enc x | None => enc x end) items
+          | _ =>
+              enc_array_len (N.of_nat (length items))
+              ++ flat_map (fun it : option mval * mval => let (k, x) := it in
+                                     match k with Some k => 146 :: enc k ++ enc x | None => enc x end) items
+          end)
+  end.
+
+Inductive vres := VOk (v : mval) (rest : bytes) | VIncomplete | VBad.
+
+(* a length header: count and what follows *)
+Definition dec_len (small_base : N) (m16 m32 : N) (b : bytes) : option (N * bytes) + bool :=
+  (* inl (Some ..): read; inl None: incomplete; inr _: not this kind of header *)
+  match b with
+  | [] => inl None
+  | mk :: r =>
+      if (small_base <=? mk) && (mk <? small_base + 16) then inl (Some (mk - small_base, r))
+      else if mk =? m16 then (if len r <? 2 then inl None else inl (Some (unbe (take 2 r), drop 2 r)))
+      else if mk =? m32 then (if len r <? 4 then inl None else inl (Some (unbe (take 4 r), drop 4 r)))
+      else inr false
+  end.
+
+(* the length of a name: str markers only *)
+Definition dec_name (b : bytes) : option (bytes * bytes) + bool :=
+  match b with
+  | [] => inl None
+  | mk :: r =>
+      let with_len (l : N) (r1 : bytes) := if len r1 <? l then inl None else inl (Some (take l r1, drop l r1)) in
+      if (160 <=? mk) && (mk <? 192) then with_len (mk - 160) r
+      else if mk =? 217 then (if len r <? 1 then inl None else with_len (unbe (take 1 r)) (drop 1 r))
+      else if mk =? 218 then (if len r <? 2 then inl None else with_len (unbe (take 2 r)) (drop 2 r))
+      else if mk =? 219 then (if len r <? 4 then inl None else with_len (unbe (take 4 r)) (drop 4 r))
+      else inr false
+  end.
+
+Section Lists.
+  Variable d : bytes -> vres.          (* the decoder for sub-values *)
+
+  Fixpoint dec_attrs (n : nat) (b : bytes) (acc : list (bytes * mval)) : option (list (bytes * mval) * bytes) + bool :=
+    match n with
+    | O => inl (Some (rev acc, b))
+    | S k =>
+        match dec_name b with
+        | inl (Some (name, r)) =>
+            match d r with
+            | VOk x r2 => dec_attrs k r2 ((name, x) :: acc)
+            | VIncomplete => inl None
+            | VBad => inr false
+            end
+        | inl None => inl None
+        | inr e => inr e
+        end
+    end.
+
+  Fixpoint dec_slots (n : nat) (b : bytes) (acc : list (option mval * mval)) : option (list (option mval * mval) * bytes) + bool :=
+    match n with
+    | O => inl (Some (rev acc, b))
+    | S k =>
+        match d b with
+        | VOk key r1 =>
+            match d r1 with
+            | VOk x r2 => dec_slots k r2 ((Some key, x) :: acc)
+            | VIncomplete => inl None
+            | VBad => inr false
+            end
+        | VIncomplete => inl None
+        | VBad => inr false
+        end
+    end.
+
+  Fixpoint dec_items (n : nat) (b : bytes) (acc : list (option mval * mval)) : option (list (option mval * mval) * bytes) + bool :=
+    match n with
+    | O => inl (Some (rev acc, b))
+    | S k =>
+        match b with
+        | [] => inl None
+        | mk :: r =>
+            if mk =? 146 then
+              match d r with
+              | VOk key r1 =>
+                  match d r1 with
+                  | VOk x r2 => dec_items k r2 ((Some key, x) :: acc)
+                  | VIncomplete => inl None
+                  | VBad => inr false
+                  end
+              | VIncomplete => inl None
+              | VBad => inr false
+              end
+            else
+              match d b with
+              | VOk x r2 => dec_items k r2 ((None, x) :: acc)
+              | VIncomplete => inl None
+              | VBad => inr false
+              end
+        end
+    end.
+End Lists.
+
+Definition is_map_marker (mk : N) : bool := ((128 <=? mk) && (mk <? 144)) || (mk =? 222) || (mk =? 223).
+
+Fixpoint dec (fuel : nat) (b : bytes) : vres :=
+  match fuel with
+  | O => VBad
+  | S f =>
+      match b with
+      | [] => VIncomplete
+      | mk :: _ =>
+          if is_map_marker mk then
+            match dec_len 128 222 223 b with
+            | inl (Some (n, r)) =>
+                match dec_attrs (dec f) (N.to_nat n) r [] with
+                | inl (Some (attrs, r1)) =>
+                    (* the body: a map of slots or an array of items *)
+                    match dec_len 128 222 223 r1 with
+                    | inl (Some (m, r2)) =>
+                        match dec_slots (dec f) (N.to_nat m) r2 [] with
+                        | inl (Some (items, r3)) => VOk (VR attrs items) r3
+                        | inl None => VIncomplete
+                        | inr _ => VBad
+                        end
+                    | inl None => VIncomplete
+                    | inr _ =>
+                        match dec_len 144 220 221 r1 with
+                        | inl (Some (m, r2)) =>
+                            match dec_items (dec f) (N.to_nat m) r2 [] with
+                            | inl (Some (items, r3)) => VOk (VR attrs items) r3
+                            | inl None => VIncomplete
+                            | inr _ => VBad
+                            end
+                        | inl None => VIncomplete
+                        | inr _ => VBad            (* a delegated (scalar) body: not produced for model values *)
+                        end
+                    end
+                | inl None => VIncomplete
+                | inr _ => VBad
+                end
+            | inl None => VIncomplete
+            | inr _ => VBad
+            end
+          else
+            match dec_scalar b with
+            | MOk s r => VOk (VS s) r
+            | MIncomplete => VIncomplete
+            | MBad => VBad
+            end
+      end
+  end.
+
+Fixpoint depth (v : mval) : nat :=
+  match v with
+  | VS _ => 1
+  | VR attrs items =>
+      S (Nat.max (fold_right (fun a m => Nat.max (depth (snd a)) m) O attrs)
+                 (fold_right (fun it m => Nat.max (match fst it with Some k => depth k | None => O end) (Nat.max (depth (snd it)) m)) O items))
+  end.
+
+(* ---- correspondence for records ---- *)
+Fixpoint mval_eqb (fuel : nat) (a b : mval) : bool :=
+  match fuel with
+  | O => false
+  | S f =>
+      match a, b with
+      | VS x, VS y => mscalar_eqb x y
+      | VR aa ai, VR ba bi =>
+          (fix attrs_eq (x y : list (bytes * mval)) : bool :=
+             match x, y with
+             | [], [] => true
+             | (n1, v1) :: x', (n2, v2) :: y' => bytes_eqb n1 n2 && mval_eqb f v1 v2 && attrs_eq x' y'
+             | _, _ => false
+             end) aa ba
+          && (fix items_eq (x y : list (option mval * mval)) : bool :=
+                match x, y with
+                | [], [] => true
+                | (k1, v1) :: x', (k2, v2) :: y' =>
+                    (match k1, k2 with
+                     | None, None => true
+                     | Some p, Some q => mval_eqb f p q
+                     | _, _ => false
+                     end) && mval_eqb f v1 v2 && items_eq x' y'
+                | _, _ => false
+                end) ai bi
+      | _, _ => false
+      end
+  end.
+
+Inductive rcase :=
+| RCaseEnc (v : mval) (bytes : bytes)                 (* what the writer produced for a model value *)
+| RCaseDec (b : bytes) (status : N) (v : option mval).  (* what the reader made of bytes: 0 value, 1 incomplete, 2 error *)
+
+Definition mpr_corr_bad (cs : list (N * rcase)) : list N :=
+  map fst (filter (fun c => match snd c with
+                            | RCaseEnc v bs => negb (bytes_eqb (enc v) bs)
+                            | RCaseDec b st v =>
+                                match dec 40 b, st, v with
+                                | VOk x _, 0, Some y => negb (mval_eqb 40 x y)
+                                | VIncomplete, 1, None => false
+                                | VBad, 2, None => false
+                                | _, _, _ => true
+                                end
+                            end) cs).
